@@ -147,20 +147,35 @@ def gen_filter(rng):
 COMPRESS = {".xz": lzma.compress, ".gz": gzip.compress, ".bz2": bz2.compress, "": lambda b: b}
 
 
-def check_multi(chk, sseed):
+def check_multi(chk, sseed, directed=False):
     """one parser instance over several index files (two or three architectures / components), read in the order the parser's
     own set gives: nothing of one index - an unterminated last stanza, a Source field, a section flag - may reach the next"""
     rng = random.Random(sseed)
     kind = rng.choice(["packages", "packages", "sources"])
     n = rng.randint(2, 3)
     flt = gen_filter(rng)
+    if directed:
+        # corpus (seed agent-C09-8): every Packages index ends - without a blank line - in a stanza with `Source: <S>`, and begins
+        # with a stanza without a Source field; the filter excludes source S: nothing of a stanza may reach the next index
+        kind = "packages"
+        src = rng.choice(SRCS)
+        flt = {"include_source_name": [], "exclude_source_name": [src], "include_binary_packages": [], "exclude_binary_packages": []}
+        chk.count("directed_several_indices_with_source_at_the_end")
     ignored = rng.sample(["pool/main/p", "pool/main/s/srcA", "pool/mai"], rng.randint(0, 1))
     top = fsutil.workdir("idxm")
     rels, texts = [], {}
     for i in range(n):
         stanzas = gen_packages(rng) if kind == "packages" else gen_sources(rng)
+        if directed:
+            while len(stanzas) < 2:
+                stanzas = gen_packages(rng)
+            stanzas[0] = [f for f in stanzas[0] if f[0] != "Source"]
+            stanzas[-1] = [f for f in stanzas[-1] if f[0] != "Source"] + [("Source", src)]
         # distinct file names per index, so that the union is order independent
-        text = render(rng, stanzas).replace("_amd64.deb", f"_a{i}.deb").replace(".dsc", f".{i}.dsc").replace(".orig.tar.gz", f".{i}.orig.tar.gz").replace(".debian.tar.xz", f".{i}.debian.tar.xz")
+        text = render(rng, stanzas)
+        if directed:
+            text = text.rstrip("\n") + rng.choice(["", "\n"])
+        text = text.replace("_amd64.deb", f"_a{i}.deb").replace(".dsc", f".{i}.dsc").replace(".orig.tar.gz", f".{i}.orig.tar.gz").replace(".debian.tar.xz", f".{i}.debian.tar.xz")
         rel = Path(f"dists/s/main/binary-a{i}/Packages") if kind == "packages" else Path(f"dists/s/c{i}/source/Sources")
         ext = rng.choice([".xz", ".gz", ""])
         (Path(top) / rel.parent).mkdir(parents=True)
@@ -176,7 +191,7 @@ def check_multi(chk, sseed):
     index_set = set(rels)
     order = list(index_set)          # the iteration order of this very set object is the order parse() will use
     cls = PackagesParser if kind == "packages" else SourcesParser
-    replay = {"multi": True, "kind": kind, "texts": [texts[r][:1500] for r in order], "filter": flt, "ignored": ignored, "seed": sseed}
+    replay = {"multi": True, "kind": kind, "texts": [texts[r][:1500] for r in order], "filter": flt, "ignored": ignored, "seed": sseed, "directed": directed}
     try:
         files = cls(Path(top), index_set, set(ignored), pf).parse()
         real = sorted((parts(f.path), f.size, bool(f.ignore_errors)) for f in files)
@@ -306,7 +321,7 @@ def check_one(chk, sseed, big=False, directed=False):
 def run(chk, tier, rng):
     n = 400 if tier == "quick" else 20000
     for i in range(60 if tier == "quick" else 2000):
-        check_multi(chk, f"C09m-{chk.seed}-{i}")
+        check_multi(chk, f"C09m-{chk.seed}-{i}", directed=(i < 5))
     for i in range(n):
         check_one(chk, f"C09-{chk.seed}-{i}", big=(i % 4 == 3))   # every fourth index is above the mmap threshold
         if i < (4 if tier == "quick" else 60):
@@ -319,7 +334,7 @@ def replay(rep):
     chk = Check("C09", "quick", 0)
     chk.known = []
     if rep["replay"].get("multi"):
-        check_multi(chk, rep["replay"]["seed"])
+        check_multi(chk, rep["replay"]["seed"], rep["replay"].get("directed", False))
     else:
         check_one(chk, rep["replay"]["seed"], big=rep["replay"].get("big", False), directed=rep["replay"].get("directed", False))
     for sig, path, msg, _ in chk.violations:
